@@ -138,8 +138,9 @@ def match_variant(variant, cats):
         if m is None:
             return None
         got.append(m)
-    if variant.get('disallowed') and [g[0] + str(i) for i, g in enumerate(got)] == variant['disallowed']:
-        return None
+    ids = [g[0] if variant.get('shared') else g[0] + str(i) for i, g in enumerate(got)]
+    if variant.get('disallowed') and ids == variant['disallowed']:
+        return None             # exactly the listed ordered combination, nothing else
     return got
 
 
@@ -165,8 +166,12 @@ def build_instruction(mn, variants):
         ops = {'count': v.get('count', len(v['sets']))}
         names = []
         for si, s in enumerate(v['sets']):
+            if v.get('shared') and si > 0:
+                names.append(names[0])          # the same operand set (same operand ids) in every slot
+                continue
             sname = f'{mn}_v{vi}s{si}'
-            opsets[sname] = {'operand_values': {f'{name}{si}': ALTS[name][1](code) for name, code in s}}
+            suffix = '' if v.get('shared') else str(si)
+            opsets[sname] = {'operand_values': {f'{name}{suffix}': ALTS[name][1](code) for name, code in s}}
             names.append(sname)
         if names:
             ops['operand_sets'] = {'list': names}
@@ -343,6 +348,17 @@ def shard(acc, tier, idx, n):
                     v2['specific'] = [[(red[i2][0], 8), (red[j2][0], 0)]]
                 group.append((f't{k}', [v1, v2]))
             run_group(acc, group, two_texts)
+    # ---- a disallowed ordered pair when both slots use the same operand set (so the reversed pair has the same ids) ----
+    shared_sets = [('reg_a', 'reg_b'), ('reg_a', 'numeric'), ('enum_foo', 'reg_b', 'numeric'), ('ind_num', 'reg_a')]
+    for g0, sset in enumerate(shared_sets):
+        for d0, d1 in itertools.permutations(sset, 2):
+            ctr += 1
+            if ctr % n != idx:
+                continue
+            s_codes = [(nm, 3 + x) for x, nm in enumerate(sset)]
+            v1 = {'opcode': 0xD5, 'sets': [s_codes, s_codes], 'shared': True, 'disallowed': [d0, d1]}
+            v2 = {'opcode': 0xD6, 'sets': [[(nm, 9 + x) for x, nm in enumerate(sset)], [(nm, 12 + x) for x, nm in enumerate(sset)]]}
+            run_group(acc, [('t0', [v1, v2]), ('t1', [v1])], two_texts)
     # ---- explicit combinations with an empty operand (the "no operand written" form) ------------------------------
     singles_alts = ['reg_a', 'reg_b', 'numeric', 'ind_num', 'enum_foo', 'ind_reg_a']
     texts_e = [()] + [(t,) for t in ('a', 'b', '5', 'foo', '[5]', '[a]', 'sp')]
